@@ -281,7 +281,15 @@ def finalize_skeleton(ctx, F, r):
                     cp, bk = m["copy"], m["buckets"]
                     same = cp == bk
                     defs = b.defs().get(cp[1], []) if cp[0] == "lv" else []
-                    is_copy = any(d[2].get("rv") == "use" and (d[2]["op"].get("copy") or d[2]["op"].get("move") or {}).get("l") == (bk[1] if bk[0] == "lv" else None) for d in defs)
+                    is_copy = False
+                    for d in defs:
+                        if d[2].get("rv") == "use":
+                            src = (d[2]["op"].get("copy") or d[2]["op"].get("move") or {})
+                            if "p" in src or "l" not in src:
+                                continue
+                            sv = p["p"].env["locals"].get(src["l"])
+                            if bk == ("lv", src["l"]) or (sv is not None and n(sv) == bk):
+                                is_copy = True
                     agg_ok = (not same) and is_copy
                     detail = "copy=%s buckets=%s is_copy=%s" % (sym.fmt(cp), sym.fmt(bk), is_copy)
                 else:
